@@ -732,12 +732,16 @@ pub fn check_main(prop: &str, tier: &str) -> i32 {
     let agg = run_batch(prop, tier, vseed, n, workers);
     // a re-executed run with a different trace: if the batch also holds violations (each is confirmed by a
     // replay in a fresh process before it is reported) they are the verdict; otherwise the harness cannot decide
-    if agg.nondeterministic > 0 && agg.violations.is_empty() && agg.died.is_empty() {
-        eprintln!("HARNESS-ERROR {} of {} re-executed runs had a different trace hash (nondeterminism)", agg.nondeterministic, agg.rechecked);
-        return 2;
-    }
+    // a re-executed run with a different trace hash. On the unchanged tree there is none (and the separate
+    // `determinism` command proves it across processes); a tree under test may legitimately not be a function
+    // of the seed (a randomised hash map deciding an order, state kept between runs of one process): that
+    // is no violation of any property, so the batch's verdict stands, replays may not reproduce, and the
+    // count goes into the evidence
     if agg.nondeterministic > 0 {
-        println!("note: {} of {} re-executed runs had a different trace hash: the code under test keeps state between independent runs of one process", agg.nondeterministic, agg.rechecked);
+        println!(
+            "note: {} of {} re-executed runs had a different trace hash: the code under test is not a function of the seed (randomised iteration order, state kept between the runs of one process); findings may not replay",
+            agg.nondeterministic, agg.rechecked
+        );
     }
     let mut extra = json!({});
     if prop == "C09" {
@@ -778,6 +782,19 @@ pub fn finish_check(
     let mut replay_paths = Vec::new();
     // group by (kind); minimise the first representative of each class that is not a known finding
     let mut viols = agg.violations.clone();
+    // C08's byte differential presupposes that a build is a function of database, options and seed. If this
+    // very batch saw the same history give different bytes in two fresh processes, the tree under test
+    // refutes that (a randomised hash map deciding an order, ...): no property forbids it, and the
+    // differential decides nothing on such a tree
+    let refuted = agg.probes.get("abort_differential_premise_refuted").copied().unwrap_or(0);
+    if refuted > 0 {
+        let before = viols.len();
+        viols.retain(|v| v.2.kind != "aborted_txn_changed_later_bytes");
+        println!(
+            "note: {refuted} executions of one history in two fresh processes wrote different bytes: builds are not a function of (database, options, seed) in this tree; {} byte-differential observations are not evaluated",
+            before - viols.len()
+        );
+    }
     viols.sort_by_key(|v| v.0);
     for (i, _) in &agg.died {
         let seed = run_seed(vseed, prop, tier, *i);
